@@ -184,11 +184,11 @@ def beginStart (s : St) : St :=
            sctpCloseReq := if s.hasApp then false else s.sctpCloseReq,
            drv := .starting }
 
-/-- top of the driving loop, ICE `Connected`: direct modes start the transport and enter the connected
-loop; WebRTC needs the role first. -/
+/-- top of the driving loop, ICE `Connected`: direct modes call `start_dtls` (which re-reads the selected
+pair, see `drvStart`); WebRTC needs the role first. -/
 def topConnected (s : St) : St :=
   match s.mode with
-  | .direct => { s with peer := .connected, drv := .running, iceSeen := s.ice, listenersCleared := false }
+  | .direct => { s with drv := .starting, iceSeen := s.ice }
   | .webrtc =>
     if s.role then beginStart { s with iceSeen := s.ice }
     else { s with drv := .waitRole, iceSeen := s.ice }
@@ -267,7 +267,7 @@ def enabled (s : St) : Act → Bool
   | .roleSet => !s.role
   | .drvTop => s.drv == .idle && s.ice != s.iceSeen
   | .drvRole => s.drv == .waitRole && s.role
-  | .drvStart => s.drv == .starting && (s.dtls == .connected || dtlsDown s.dtls || s.sctp == .ended)
+  | .drvStart => s.drv == .starting && (s.mode == .direct || s.dtls == .connected || dtlsDown s.dtls || s.sctp == .ended)
   | .drvLoops => s.drv == .running && (s.sctp == .ended || s.listenersCleared)
   | .drvIce => (s.drv == .running || s.drv == .waitRole) && s.ice != s.iceSeen
   | .drvDtls => s.drv == .running && s.mode == .webrtc && s.dtls != s.dtlsSeen
@@ -303,7 +303,11 @@ def apply (s : St) : Act → St
     else { s with iceSeen := s.ice }
   | .drvRole => beginStart s
   | .drvStart =>
-    if s.dtls = .connected ∧ s.sctp ≠ .ended then
+    if s.mode = .direct then
+      -- `start_dtls` of the direct modes: `get_selected_pair()` fails when ICE was stopped meanwhile
+      if s.ice = .connected then { s with peer := .connected, drv := .running, listenersCleared := false }
+      else { setReasonIfNone s .transportStartFailed with peer := .failed, drv := .done }
+    else if s.dtls = .connected ∧ s.sctp ≠ .ended then
       { s with peer := .connected, dtlsSeen := .connected, drv := .running, listenersCleared := false }
     else
       -- Err(..) from start_dtls: DtlsFailed / Failed, the pending runner future is dropped
